@@ -215,6 +215,20 @@ func getg() uintptr
 // goid returns a goroutine identity (the address of its g; valid while the goroutine lives).
 func goid() int64 { return int64(getg()) }
 
+// IsTask reports whether the calling goroutine is a task of the scheduler (as opposed to a goroutine of
+// a dependency that has not entered instrumented code). Harness helpers that may be called from both
+// use it to decide whether a Yield is due after a blocking call.
+func IsTask() bool {
+	s := S
+	if s == nil {
+		return false
+	}
+	g := goid()
+	s.mu.Lock()
+	defer s.mu.Unlock()
+	return s.tasks[g] != nil
+}
+
 // GoID identifies the calling goroutine (observation aid: ties two observations made by the same
 // goroutine together; it is never used for a scheduling decision).
 func GoID() int64 { return goid() }
